@@ -7,6 +7,7 @@ import (
 	"os"
 	"os/exec"
 	"path/filepath"
+	"runtime"
 	"strings"
 	"sync"
 	"time"
@@ -86,7 +87,28 @@ func (o *Obligation) query(withModel bool) string {
 	return b.String()
 }
 
-func runSolver(ctx context.Context, s solverSpec, file string, timeout int) (string, string) {
+// solverSlots bounds the number of solver processes running at once (one per core):
+// obligations are raced on several solver configurations, and oversubscribing the
+// machine turns 3-second proofs into spurious timeouts. A solver's own time limit starts
+// when it gets its slot.
+var solverSlots = make(chan struct{}, maxInt(2, runtime.NumCPU()))
+
+func maxInt(a, b int) int {
+	if a > b {
+		return a
+	}
+	return b
+}
+
+func runSolver(parent context.Context, s solverSpec, file string, timeout int) (string, string) {
+	select {
+	case solverSlots <- struct{}{}:
+	case <-parent.Done():
+		return "timeout", ""
+	}
+	defer func() { <-solverSlots }()
+	ctx, cancelT := context.WithTimeout(parent, time.Duration(timeout+3)*time.Second)
+	defer cancelT()
 	args := s.cmd(file, timeout)
 	cmd := exec.CommandContext(ctx, args[0], args[1:]...)
 	var out bytes.Buffer
@@ -127,7 +149,7 @@ func discharge(o *Obligation, workdir string, idx int, timeout int, all bool) {
 			wg.Add(1)
 			go func(s solverSpec) {
 				defer wg.Done()
-				ctx, cancel := context.WithTimeout(context.Background(), time.Duration(timeout+5)*time.Second)
+				ctx, cancel := context.WithCancel(context.Background())
 				defer cancel()
 				r, text := runSolver(ctx, s, file, timeout)
 				mu.Lock()
@@ -165,7 +187,7 @@ func discharge(o *Obligation, workdir string, idx int, timeout int, all bool) {
 	if timeout < quickT {
 		quickT = timeout
 	}
-	ctx, cancel := context.WithTimeout(context.Background(), time.Duration(quickT+2)*time.Second)
+	ctx, cancel := context.WithCancel(context.Background())
 	r, text := runSolver(ctx, solvers[0], file, quickT)
 	cancel()
 	if r == "sat" || r == "unsat" {
@@ -178,7 +200,7 @@ func discharge(o *Obligation, workdir string, idx int, timeout int, all bool) {
 	// race all three with the full timeout
 	type res struct{ r, text, name string }
 	ch := make(chan res, len(solvers))
-	ctx2, cancel2 := context.WithTimeout(context.Background(), time.Duration(timeout+2)*time.Second)
+	ctx2, cancel2 := context.WithCancel(context.Background())
 	defer cancel2()
 	for _, s := range solvers {
 		go func(s solverSpec) {
